@@ -182,10 +182,13 @@ theorem head_workers_canonical :
     Canonical .onMsg Gen.netflowV5Worker := by decide
 /-- obligation: the sFlow worker counts and publishes each datagram exactly as `.onYield` says -/
 theorem sFlowWorker_canonical : Canonical .onYield Gen.sFlowWorker := by decide
-/-- obligation: the four read loops count each datagram once, before enqueueing it -/
+/-- obligation: the four read loops count each datagram once, before enqueueing it, and all that follows the
+loop in `run()` is the reader closing its own UDP channel (`canonicalRxTail`: nothing is counted or enqueued after the loop) -/
 theorem readloops_canonical :
     Gen.ipfixRun = canonicalRx ∧ Gen.netflowV9Run = canonicalRx ∧ Gen.netflowV5Run = canonicalRx ∧
-    Gen.sFlowRun = canonicalRx := by decide
+    Gen.sFlowRun = canonicalRx ∧
+    Gen.ipfixRunTail = canonicalRxTail ∧ Gen.netflowV9RunTail = canonicalRxTail ∧
+    Gen.netflowV5RunTail = canonicalRxTail ∧ Gen.sFlowRunTail = canonicalRxTail := by decide
 
 /-! ## non-vacuity and mutants -/
 
